@@ -147,7 +147,25 @@ func c05CheckImage(img []byte, seed uint32, wantRootEntries int) {
 			dirsInGroup[grp]++
 		}
 		if !in.usesExt {
-			continue // resize inode (block map): owned blocks are the reserved GDT blocks, counted as metadata
+			// resize inode (block map): its data blocks are the reserved GDT blocks (counted as metadata above),
+			// its only own block is the double indirect block i_block[13]
+			if ino == 7 {
+				dind := int(c05le32(in.raw, 0x28+13*4))
+				vp.Assert(dind != 0, "resize inode has a double indirect block")
+				claim(dind, 2)
+				nBackups := 0
+				for i := 1; i < g.groups; i++ {
+					if c05HasBackup(i) {
+						nBackups++
+					}
+				}
+				apb := g.bs / 4
+				need := (12 + apb + (g.resvGDT-1)*apb + nBackups) * g.bs
+				flex := 1 << uint(s[0x174])
+				vp.AssertUnless("KF-C05-9", (g.bpg*flex+g.resvGDT+12)*g.bs < need, in.size >= need,
+					"resize inode: i_size covers its last mapped block")
+			}
+			continue
 		}
 		ib := in.raw[0x28:0x64]
 		vp.Assert(c05le16(ib, 0) == 0xf30a, "extent header magic")
@@ -261,6 +279,7 @@ func c05CheckImage(img []byte, seed uint32, wantRootEntries int) {
 }
 
 type c05CreateCase struct {
+	logFlex  int
 	sparse   uint8
 	size     int64
 	spb      uint8
@@ -276,7 +295,7 @@ func c05Create(c c05CreateCase) (*FileSystem, *c05Dev, uint32) {
 	copy(id[:], vp.Bytes("uuid", 16))
 	seed := crc.CRC32c(0xffffffff, id[:])
 	vp.NoPanic()
-	fsys, err := Create(dev, c.size, 0, 512, &Params{UUID: &id, SectorsPerBlock: c.spb, BlocksPerGroup: c.bpg, InodeCount: c.inodes, SparseSuperVersion: c.sparse, Features: c.features})
+	fsys, err := Create(dev, c.size, 0, 512, &Params{UUID: &id, SectorsPerBlock: c.spb, BlocksPerGroup: c.bpg, InodeCount: c.inodes, SparseSuperVersion: c.sparse, LogFlexBlockGroups: c.logFlex, Features: c.features})
 	vp.AllowPanic()
 	if err != nil {
 		return nil, dev, seed
@@ -540,26 +559,23 @@ func VP_C05_image_tail_group() {
 	}
 }
 
-// Create with SparseSuperVersion = 2 (accepted): the backup list {0, 1, groups-1} is used as BLOCK numbers
-// by writeSuperblock/writeGDT, so a superblock copy lands in block groups-1 (KF-C05-8).
-func c05ImageSparse2(v uint8, known bool) {
-	fsys, dev, _ := c05Create(c05CreateCase{size: 1024 * 1024, spb: 2, bpg: 256, features: c05Plain, sparse: v})
+// Create with resize_inode (1 KiB blocks, 256 reserved GDT blocks, 2 groups of 1024 blocks): flex size 64
+// (sound) or the default 8 (KF-C05-9: i_size of the resize inode too small), chosen by a symbolic flag.
+func c05ImageResize(logFlex int) {
+	fsys, dev, seed := c05Create(c05CreateCase{size: 2048 * 1024, spb: 2, bpg: 1024, logFlex: logFlex,
+		features: []FeatureOpt{WithFeatureHasJournal(false)}})
 	if fsys == nil {
 		return
 	}
 	g := c05ReadGeo(dev.img)
-	vp.Assert(g.groups == 4, "fixture: 4 groups")
-	vp.AssertUnless("KF-C05-8", known, c05CountsBad(&g) == 0, "counts agree with the bitmaps")
-	// block 3 belongs to group 0's metadata (bitmaps / inode table), not to a superblock copy
-	vp.AssertUnless("KF-C05-8", known, c05le16(dev.img, 3*1024+0x38) != 0xef53, "no superblock copy inside the bitmaps/inode table of group 0")
-	if !known {
-		vp.Cover("sparse_super (v1) image consistent")
-	}
+	vp.Assert(g.resvGDT == 256, "fixture: 256 reserved GDT blocks")
+	c05CheckImage(dev.img, seed, 0)
+	vp.Cover("volume with resize inode created and checked")
 }
-func VP_C05_image_sparse_super2() {
-	if vp.Bool("sparseSuper2") {
-		c05ImageSparse2(2, true)
+func VP_C05_image_create_resize() {
+	if vp.Bool("defaultFlex") {
+		c05ImageResize(0)
 	} else {
-		c05ImageSparse2(0, false)
+		c05ImageResize(6)
 	}
 }
